@@ -90,10 +90,9 @@ def r2(ctx):
 def r3(ctx):
     w = pipe.worker(ctx)
     b = w.body
-    some = [tgt for (val, tgt) in b.blocks[w.ticket.target].term.arms if val == 1] if b.blocks[w.ticket.target].term.kind == 'switch' else []
-    if not some:
+    if w.some_target is None:
         raise AnchorMissing('Some arm of the ticket pull')
-    ok = all(cfg.must_pass(b, some[0], l, via_blocks=[w.send.bb]) for l in w.loop.latches)
+    ok = all(cfg.must_pass(b, w.some_target, l, via_blocks=[w.send.bb]) for l in w.loop.latches)
     ctx.require(ok, b, 'pipe-pull-then-send', 'Pipe worker: between two ticket pulls there is always a (blocking) send', None, w.send.span)
     ctx.require((w.send.callee_res() or '').endswith('SyncSender::send'), b, 'pipe-blocking-send', 'Pipe worker uses the blocking send', None, w.send.span)
     bn = ctx.body('data::loading::Buffered::new')
@@ -109,7 +108,8 @@ def r3(ctx):
     pulls = _pulls_in(pb, loop) if loop else []
     ok = loop is not None and len(pulls) == 1
     if ok:
-        some = [tgt for (val, tgt) in pb.blocks[pulls[0].target].term.arms if val == 1]
+        from analysis.sym import variant_edges
+        some = [e[1] for e in variant_edges(pb, sym(pb, pulls[0].dest), 'Some')]
         ok = bool(some) and all(cfg.must_pass(pb, some[0], l, via_blocks=[sends[0].bb]) for l in loop.latches)
     ctx.require(ok, pb, 'buffered-pull-then-send', 'Buffered producer: one pull per send', None, sends[0].span)
     # the upstream iterator is pulled only by the producer thread: Buffered::new moves it into the closure
